@@ -98,6 +98,8 @@ Put(c, w, tgt, bytes) ==
 \* ---------------------------------------------------------------- the message
 LogCmds == {0, 1}                      \* MPT_MESGTYPE(Output), MPT_MESGTYPE(Answer)
 ValCmd  == 9                           \* MPT_MESGTYPE(ValueFmt): values for the data file of a history
+RawCmd  == 8                           \* MPT_MESGTYPE(ValueRaw): values behind a value source head (dimension, format)
+I8      == 224                         \* format of a signed byte (the only element format modelled here; x17 has the others)
 MType(m) == IF m[1] = 0 THEN m[2] % 128
             ELSE IF m[2] >= 128 THEN 3 ELSE IF m[2] # 0 THEN 8 ELSE 16
 IsRich(m) == m[1] = 0 /\ m[2] >= 128
@@ -145,15 +147,35 @@ Line(c, ign, m) ==
       st   == RichFold(st0, txt, 1, deco)
   IN IF IsRich(m) THEN Marker(c, ign, m) \o Intro(m, deco) \o st.o \o LineEnd(TRUE, st.low, st.rst)
      ELSE Marker(c, ign, m) \o Intro(m, deco) \o txt \o NL
-\* where a message goes: decided by its first byte
+\* the rows of a value message in the data file, from the message alone (elements: signed bytes).
+\*  format list (9, k > 0, k formats, values): rows of k values; no value (list complete or not): an empty row
+\*  inline      (9, 0, (format, value)*):      one row
+\*  raw         (8, arg, dimension, format, values): one row
+Num(b) == Dec(Signed(b))
+RECURSIVE RowText(_, _)                  \* values of one row, separated by a space
+RowText(v, i) == IF i > Len(v) THEN <<>> ELSE (IF i > 1 THEN <<32>> ELSE <<>>) \o Num(v[i]) \o RowText(v, i + 1)
+RECURSIVE RowsOf(_, _)                   \* rows of k values, the last may be shorter
+RowsOf(v, k) == IF v = <<>> THEN <<>>
+                ELSE IF Len(v) <= k THEN RowText(v, 1) \o NL
+                ELSE RowText(First(v, k), 1) \o NL \o RowsOf(After(v, k), k)
+EvenOf(v) == [i \in 1..(Len(v) \div 2) |-> v[2 * i]]
+ValueRows(m) ==
+  IF m[1] = RawCmd THEN (IF Len(m) > 4 THEN RowText(After(m, 4), 1) \o NL ELSE <<>>)
+  ELSE IF Len(m) < 2 THEN <<>>
+  ELSE IF m[2] = 0 THEN (IF Len(m) >= 4 THEN RowText(EvenOf(After(m, 2)), 1) \o NL ELSE <<>>)
+  ELSE IF Len(m) <= 2 + m[2] THEN NL          \* the list counts as a begun row until a value arrives
+  ELSE RowsOf(After(m, 2 + m[2]), m[2])
+\* where a message goes: decided by its head
 Route(c, m) ==
   IF m[1] \in LogCmds THEN "log"
   ELSE IF m[1] = ValCmd /\ c.kind # "logfile" THEN "values"
+  ELSE IF m[1] = RawCmd /\ c.kind # "logfile" /\ Len(m) >= 4 /\ m[4] # 0 THEN "values"
   ELSE IF c.kind = "local" /\ c.pass = 1 THEN "remote" ELSE "refused"
 \* what a finished (or abandoned) message leaves behind
 Render(c, ign, m, ended) ==
   CASE Route(c, m) = "log" ->
          [Put(c, EmptyW, Tgt(c, ign, m), Line(c, ign, m)) EXCEPT !.pass = <<>>]
+    [] Route(c, m) = "values" -> Put(c, EmptyW, 3, ValueRows(m))
     [] Route(c, m) = "remote" -> [EmptyW EXCEPT !.pass = m, !.passend = IF ended THEN 1 ELSE 0]
     [] OTHER -> EmptyW
 \* what a push of the bytes o answers when c0 has been taken before
@@ -161,6 +183,7 @@ Verdict(c, c0, o) ==
   LET f == c0 \o o IN
   IF c0 # <<>> THEN [ret |-> "ok", taken |-> Len(o)]
   ELSE IF f[1] = ValCmd /\ c.kind # "logfile" THEN [ret |-> "ok", taken |-> Len(o)]
+  ELSE IF f[1] = RawCmd /\ c.kind # "logfile" /\ Len(f) < 4 THEN [ret |-> "missing", taken |-> 0]
   ELSE IF Len(f) < 2 THEN [ret |-> "missing", taken |-> 0]
   ELSE IF Route(c, f) = "refused" THEN [ret |-> "refused", taken |-> 0]
   ELSE [ret |-> "ok", taken |-> Len(o)]
@@ -208,11 +231,15 @@ LogRender(c, ign, cl, busy) ==
                                   LogText(cl, pre, Ident(cl.type % 64))]]
 
 \* ---------------------------------------------------------------- Tier 2
-\* snk = [active, tgt, rst, remote, vals, rich, seg, fn, low, ignore]
+\* snk = [active, tgt, rst, remote, vals, rich, seg, fn, low, ignore] + the value decoder of a history:
+\*   vneed (-1: count byte expected, n > 0: formats to collect, 0: data), vk (columns of the format list),
+\*   vpos (histfmt.pos), vinl (inline formats: mode & 0x80), vfmt (histfmt.fmt: inline format byte seen / list closed)
 Snk0(ign) == [active |-> FALSE, tgt |-> 0, rst |-> FALSE, remote |-> FALSE, vals |-> FALSE,
-              rich |-> FALSE, seg |-> FALSE, fn |-> FALSE, low |-> 0, ignore |-> ign]
+              rich |-> FALSE, seg |-> FALSE, fn |-> FALSE, low |-> 0, ignore |-> ign,
+              vneed |-> 0, vk |-> 0, vpos |-> 0, vinl |-> FALSE, vfmt |-> FALSE]
 Idle(s) == [s EXCEPT !.active = FALSE, !.tgt = 0, !.rst = FALSE, !.vals = FALSE,
-                     !.rich = FALSE, !.seg = FALSE, !.fn = FALSE, !.low = 0]
+                     !.rich = FALSE, !.seg = FALSE, !.fn = FALSE, !.low = 0,
+                     !.vneed = 0, !.vk = 0, !.vpos = 0, !.vinl = FALSE, !.vfmt = FALSE]
 Res(s, w, r) == [s |-> s, w |-> w, r |-> r]
 
 \* mpt_logfile_push, message active, data
@@ -222,7 +249,8 @@ LfText(c, s, w, o) ==
   ELSE LET st == RichFold([o |-> <<>>, seg |-> s.seg, fn |-> s.fn, low |-> s.low, rst |-> s.rst], o, 1, Deco(c, s.tgt))
        IN Res([s EXCEPT !.seg = st.seg, !.fn = st.fn, !.low = st.low, !.rst = st.rst], Put(c, w, s.tgt, st.o), Len(o))
 LfEnd(c, s, w) ==
-  Res(Idle(s), IF s.tgt = 0 THEN w ELSE Put(c, w, s.tgt, LineEnd(s.rich, s.low, s.rst)), 0)
+  Res(IF "endrst" \in AsFound /\ s.tgt = 0 /\ s.rst THEN [Idle(s) EXCEPT !.rst = TRUE] ELSE Idle(s),
+      IF s.tgt = 0 THEN w ELSE Put(c, w, s.tgt, LineEnd(s.rich, s.low, s.rst)), 0)
 \* first data of a message: the head
 LfHead(c, s, w, o) ==
   IF Len(o) < 2 THEN Res(s, w, -16)
@@ -245,15 +273,41 @@ LfPush(c, s, w, o, call) ==
   ELSE IF call # "data" THEN Res(s, w, -1)
        ELSE LfHead(c, s, w, o)
 
-\* mpt_history_push: log messages to the log file, value messages to the data rows (rows are not modelled)
+\* mpt_history_values: one byte of a value message (elements are signed bytes: every byte completes something).
+\* st = [s, o]: sink state and the text for the data file
+ValStep(st, b) ==
+  LET s == st.s IN
+  IF s.vneed = -1
+  THEN IF b = 0 THEN [st EXCEPT !.s = [s EXCEPT !.vneed = 0, !.vinl = TRUE]]
+       ELSE [st EXCEPT !.s = [s EXCEPT !.vneed = b, !.vk = b, !.vpos = b]]
+  ELSE IF s.vneed > 0
+  THEN [st EXCEPT !.s = [s EXCEPT !.vneed = @ - 1]]
+  ELSE IF s.vinl /\ ~s.vfmt THEN [st EXCEPT !.s = [s EXCEPT !.vfmt = TRUE]]
+  ELSE LET first == s.vk > 0 /\ ~s.vfmt        \* the list is closed (position back to 0) when the first value is there
+           brk   == s.vk > 0 /\ s.vfmt /\ s.vpos >= s.vk
+           pos   == IF first \/ brk THEN 0 ELSE s.vpos
+       IN [s |-> [s EXCEPT !.vpos = pos + 1, !.vfmt = (s.vk > 0)],
+           o |-> st.o \o (IF brk THEN NL ELSE <<>>) \o (IF pos # 0 THEN <<32>> ELSE <<>>) \o Num(b)]
+RECURSIVE ValFold(_, _, _)
+ValFold(st, v, i) == IF i > Len(v) THEN st ELSE ValFold(ValStep(st, v[i]), v, i + 1)
+HsValues(c, s, w, v, r) ==
+  LET st == ValFold([s |-> s, o |-> <<>>], v, 1) IN Res(st.s, Put(c, w, 3, st.o), r)
+HsValEnd(c, s, w) == Res(Idle(s), IF s.vpos # 0 THEN Put(c, w, 3, NL) ELSE w, 0)
+\* mpt_history_push: log messages to the log file, value messages to the rows of the data file
 HsPush(c, s, w, o, call) ==
   IF s.active
   THEN IF s.tgt # 0 \/ s.rst THEN LfPush(c, s, w, o, call)
-       ELSE IF call = "data" THEN Res(s, w, Len(o))
-       ELSE IF call = "end" THEN Res(Idle(s), w, 0)
-       ELSE IF "habort" \in AsFound THEN Res(s, w, -4) ELSE Res(Idle(s), w, 0)
+       ELSE IF call = "data" THEN HsValues(c, s, w, o, Len(o))
+       ELSE IF call = "end" THEN HsValEnd(c, s, w)
+       ELSE IF "habort" \in AsFound THEN Res(s, w, -4) ELSE HsValEnd(c, s, w)
   ELSE IF call = "end" THEN Res(s, Put(c, w, IF c.file = "none" THEN 0 ELSE 3, NL), 0)
-       ELSE IF call = "data" /\ o[1] = ValCmd THEN Res([Idle(s) EXCEPT !.active = TRUE, !.vals = TRUE], w, Len(o))
+       ELSE IF call = "data" /\ o[1] = ValCmd
+       THEN HsValues(c, [s EXCEPT !.active = TRUE, !.vals = TRUE, !.vneed = -1], w, After(o, 1), Len(o))
+       ELSE IF call = "data" /\ o[1] = RawCmd
+       THEN IF Len(o) < 4 THEN Res(s, w, -16)
+            ELSE IF o[4] = 0 THEN Res(s, w, -2)
+            ELSE HsValues(c, [s EXCEPT !.active = TRUE, !.vals = TRUE], w,
+                          IF "rawhead" \in AsFound THEN SubSeq(o, 3, Len(o) - 2) ELSE After(o, 4), Len(o))
        ELSE LfPush(c, s, w, o, call)
 
 \* output of mpt_output_local: what the history refuses goes to the next output
@@ -324,7 +378,7 @@ Start(m) ==
   /\ todo = <<>> /\ held = <<>> /\ cur = <<>>
   /\ m # <<>>
   \* a history without a file discards value messages; what its pushes answer then is not modelled
-  /\ ~(m[1] = ValCmd /\ cfg.kind # "logfile" /\ cfg.file = "none")
+  /\ ~(m[1] \in {ValCmd, RawCmd} /\ cfg.kind # "logfile" /\ cfg.file = "none")
   /\ todo' = m
   /\ obs' = [a |-> "msg", arg |-> [data |-> m], exp |-> [ret |-> "ok"]]
   /\ des' = [ret |-> "ok"]
@@ -353,10 +407,8 @@ Finish(call) ==
   /\ call = "end" => todo = <<>>
   /\ LET d == SinkPush(cfg, snk, wr, <<>>, call)
          e == Render(cfg, lvl0, cur, call = "end")
-     IN /\ obs' = [a |-> call, arg |-> NoArg,
-                   exp |-> IF Route(cfg, cur) = "values" THEN [ret |-> "ok"] ELSE [ret |-> "ok"] @@ WObs(e)]
-        /\ des' = IF Route(cfg, cur) = "values" THEN [ret |-> IF d.r >= 0 THEN "ok" ELSE "refused"]
-                  ELSE [ret |-> IF d.r >= 0 THEN "ok" ELSE IF d.r = -16 THEN "missing" ELSE "refused"] @@ WObs(d.w)
+     IN /\ obs' = [a |-> call, arg |-> NoArg, exp |-> [ret |-> "ok"] @@ WObs(e)]
+        /\ des' = [ret |-> IF d.r >= 0 THEN "ok" ELSE IF d.r = -16 THEN "missing" ELSE "refused"] @@ WObs(d.w)
         /\ snk' = d.s
   /\ wr' = EmptyW /\ cur' = <<>> /\ todo' = <<>>
   /\ UNCHANGED <<cfg, held, lvl0>>
@@ -432,7 +484,8 @@ Spec == Init /\ [][Next]_vars
 \* ---------------------------------------------------------------- what TLC checks
 TypeOK ==
   /\ cfg \in Configs
-  /\ snk.tgt \in 0..3 /\ snk.low \in 0..15
+  /\ snk.tgt \in 0..3 /\ snk.low \in 0..15 /\ snk.vneed \in -1..127 /\ snk.vpos >= 0
+  /\ \A k \in {"vinl", "vfmt"} : snk[k] \in BOOLEAN
   /\ \A k \in {"active", "rst", "remote", "vals", "rich", "seg", "fn"} : snk[k] \in BOOLEAN
   /\ held # <<>> => cur = <<>>
 \* between messages the sink is idle and has written nothing that is not accounted for:
